@@ -648,7 +648,7 @@ fn handle_doc(kind: &str, text: &str) -> String {
         let img = Image::from_parts(std::sync::Arc::from(Vec::<RGBA>::new()), Shape::from(Size::new(h, w)));
         let js = serde_json::to_string(&img).expect("serialise");
         return match serde_json::from_str::<Image>(&js) {
-            Ok(b) if b.size() == img.size() => "ok:rt".to_string(),
+            Ok(b) if (b.shape().height, b.shape().width) == (h, w) => "ok:rt".to_string(),
             Ok(b) => panic!("round trip changed the size: {:?} -> {js} -> {:?}", img.size(), b.size()),
             Err(e) => panic!("round trip failed: {:?} -> {js} -> {e}", img.size()),
         };
